@@ -233,7 +233,7 @@ impl GraphStore {
         let ghost bo = self.outgoing@[idx as int]@;
         let ghost bi = self.incoming@[idx as int]@;
         let ghost li2 = self.label_index@;
-//@before "Ok(node)"
+//@atend
         proof {
             assert(self.label_index@ == after1.label_index@);
             assert forall|l: Label, n: NodeId| n != id implies #[trigger] self.listed(l, n) == old(self).listed(l, n) by {
